@@ -43,9 +43,7 @@ def jobs_for(eng, prop):
     for qn, c in CONTRACTS.items():
         if c.inline or c.trusted or c.extra.get('bounded') or c.extra.get('inline_only'):
             continue
-        props = set(c.props)
-        for name in list(c.ensures) + list(c.raises):
-            props.update(c.clause_props(name))
+        props = c.all_props()
         if prop is not None and prop not in props:
             continue
         if c.extra.get('instances') == 'relative_unpack-formats':
@@ -122,9 +120,6 @@ def bounded_jobs(prop):
     for qn, c in CONTRACTS.items():
         if not c.extra.get('bounded'):
             continue
-        props = set(c.props)
-        for name in list(c.ensures) + list(c.raises):
-            props.update(c.clause_props(name))
-        if prop in props:
+        if prop in c.all_props():
             out.append(qn)
     return out
